@@ -141,6 +141,19 @@ func (p *Provider) Execute(ctx context.Context, name string, args []interface{})
 		}
 	}
 	f := method.Func()
+	ft := f.Type()
+	for i := range in {
+		if !in[i].IsValid() {
+			// a nil argument: reflect.ValueOf(nil) is the zero Value, which Call rejects;
+			// pass the zero value of the parameter type, as core.Service.Execute does
+			switch {
+			case ft.IsVariadic() && i >= ft.NumIn()-1:
+				in[i] = reflect.Zero(ft.In(ft.NumIn() - 1).Elem())
+			case i < ft.NumIn():
+				in[i] = reflect.Zero(ft.In(i))
+			}
+		}
+	}
 	out := f.Call(in)
 	n = len(out)
 	if method.ReturnError() {
